@@ -171,8 +171,20 @@ let judge op args got0 =
   | "upow" | "ipow" ->
       let x = a 0 and e = n 1 in
       let s, m = sm x in
-      let asis = Ringasis.pow s m e in
-      expect_val ~extra:("cls=" ^ cls_of x ^ " " ^ fido asis got) (pow_spec x e) got
+      (* the shift count exp * trailing_zeros in usize (64 bits in both builds), Int/RingPowShift.v: when it does not fit, the
+         result has more than usize::MAX bits and the documented 'try to allocate too much memory' is the only right answer *)
+      let shift = if Zar.sign m = 0 then Zar.zero else Zar.of_int (Zar.trailing_zeros m) in
+      (match pow_shift (Zar.shift_left Zar.one 64) e shift with
+       | Panic AllocateTooMuch -> expect ~extra:"cls=pow-shift-overflow asis=same" "panic AllocateTooMuch" got
+       | _ ->
+         if Zar.gt (Zar.mul (Zar.of_int (max 0 (Zar.numbits m - 1))) e) (Zar.shift_left Zar.one 36) then
+           (* too large to build: any of the two documented allocation panics, never a value *)
+           (match got with
+            | ["panic"; ("AllocateTooMuch" | "OutOfMemory")] -> pass ~extra:"cls=pow-huge" ()
+            | _ -> fail "panic AllocateTooMuch")
+         else
+           let asis = Ringasis.pow s m e in
+           expect_val ~extra:("cls=" ^ cls_of x ^ " " ^ fido asis got) (pow_spec x e) got)
   | "kmul" | "kmul32" | "kmul64" ->
       let which = Zar.to_int (n 0) and s = (if List.nth args 1 = "1" then Positive else Negative) in
       let sc = if op = "kmul" then sc else 1 in
